@@ -14,7 +14,8 @@ fn dist_gg(a: &G, b: &G) -> Result<f64, String> {
 }
 
 pub fn distance_case(cx: &mut Ctx, n: u64, case: &Value) {
-    if !cx.wants("C07") {
+    let prop13 = !cx.wants("C07") && cx.wants("C13");
+    if !cx.wants("C07") && !prop13 {
         return;
     }
     let a = gj::parse(&case["a"]);
@@ -36,6 +37,21 @@ pub fn distance_case(cx: &mut Ctx, n: u64, case: &Value) {
             other => cx.bad("C07", sub, case, json!({"what": what, "got": format!("{other:?}"), "want_d2": w2, "want_d": w2.sqrt()})),
         }
     };
+    if prop13 {
+        // commutation clause of C13: every exact similarity map scales the distance by exactly its factor
+        let maps: Vec<_> = exact_maps().into_iter().filter(|m| m.similarity().is_some()).collect();
+        for m in &maps {
+            let got = dist_cc(&m.on(&a), &m.on(&b));
+            let s = m.similarity().unwrap();
+            let w2 = want2 * s * s;
+            match got {
+                Ok(d) if num == 0.0 && d == 0.0 => cx.ok("distance_exact_map"),
+                Ok(d) if num != 0.0 && d > 0.0 && (d * d - w2).abs() <= 1e-9 * w2.max(s * s) => cx.ok("distance_exact_map"),
+                other => cx.bad("C13", "distance_exact_map", case, json!({"what": format!("map {}", m.name), "got": format!("{other:?}"), "want_d2": w2})),
+            }
+        }
+        return;
+    }
     judge("distance", "Euclidean.distance(a, b)".into(), dist_cc(&a, &b), 1.0);
     judge("distance_symmetric", "Euclidean.distance(b, a)".into(), dist_cc(&b, &a), 1.0);
     judge("distance_geometry_enum", "Euclidean.distance(Geometry a, Geometry b)".into(), dist_gg(&a, &b), 1.0);
